@@ -106,6 +106,10 @@ def family_costs(make_input: t.Callable[[int], t.Any], run: t.Callable[[t.Any], 
 
 
 def judge(costs: t.List[t.Tuple[int, int, t.Optional[str]]]) -> t.Optional[str]:
+    done = [c for c in costs if c[2] not in ("BUDGET", "WALL")]
+    for (k1, n1, _), (k2, n2, _) in zip(done, done[1:]):
+        if n2 > 8 * n1 + SLACK:
+            return f"cost({k2}) = {n2} instructions > 8 x cost({k1}) + {SLACK} = {8 * n1 + SLACK}"
     for k, n, outcome in costs:
         if outcome == "BUDGET":
             return f"instruction budget ({BUDGET}) exceeded at k={k}"
